@@ -836,3 +836,143 @@ Proof.
     [exact HR | cbn [app]; lia | cbn [length]; lia |].
   cbn [length] in H1. change (N.of_nat 0) with 0%N in H1. rewrite H1. now exists b'.
 Qed.
+
+(* --- strip_blanks ------------------------------------------------------------------------ *)
+
+Lemma strip_lead_ok blanks : forall pre b fuel rest, R b (pre ++ blanks ++ rest) ->
+  forallb is_cspace blanks = true -> match rest with [] => True | c :: _ => is_cspace c = false end ->
+  length blanks < fuel ->
+  strip_lead fuel b (N.of_nat (length pre)) = Some (N.of_nat (length pre + length blanks)).
+Proof.
+  induction blanks as [|x bl IH]; intros pre b fuel rest HR Hb Hrest Hf;
+    (destruct fuel as [|f]; [cbn in Hf; lia|]); cbn [strip_lead].
+  - cbn [app length] in *. rewrite Nat.add_0_r. destruct rest as [|c rest].
+    + rewrite (get_char_R_end b _ _ HR); [reflexivity | rewrite app_nil_r; lia].
+    + rewrite (get_char_R_mid b pre c rest HR). now rewrite Hrest.
+  - cbn [forallb] in Hb. apply andb_true_iff in Hb. destruct Hb as (Hx & Hb).
+    destruct (R_contents _ _ HR) as (_ & _ & Hl).
+    rewrite (get_char_R_mid b pre x (bl ++ rest) HR), Hx.
+    replace (N.of_nat (length pre) <=? N.of_nat (blen b))%N with true
+      by (symmetry; apply N.leb_le; rewrite Hl, app_length; lia).
+    cbn [andb].
+    replace (N.of_nat (length pre) + 1)%N with (N.of_nat (length (pre ++ [x]))) by (rewrite app_length; cbn; lia).
+    rewrite (IH (pre ++ [x]) b f rest); [| now rewrite <- app_assoc | exact Hb | exact Hrest | cbn in Hf; lia].
+    f_equal. rewrite app_length. cbn. lia.
+Qed.
+
+Lemma strip_trail_ok blanks : forall core c b fuel, R b (core ++ c :: blanks) ->
+  is_cspace c = false -> forallb is_cspace blanks = true -> length blanks < fuel ->
+  (N.of_nat (length (core ++ c :: blanks)) < 4294967296)%N ->
+  strip_trail fuel b (N.of_nat (length core + length blanks)) = Some (N.of_nat (length core)).
+Proof.
+  induction blanks as [|x bl IH] using rev_ind; intros core c b fuel HR Hc Hb Hf H32;
+    (destruct fuel as [|f]; [cbn in Hf; lia|]); cbn [strip_trail].
+  - cbn [length]. rewrite Nat.add_0_r. rewrite (get_char_R_mid b core c [] HR). now rewrite Hc.
+  - rewrite forallb_app in Hb. apply andb_true_iff in Hb. destruct Hb as (Hb & Hx). cbn in Hx.
+    rewrite andb_true_r in Hx. rewrite !app_length in *. cbn [length] in *. rewrite app_length in *. cbn [length] in *.
+    assert (HR' : R b ((core ++ c :: bl) ++ x :: [])).
+    { rewrite <- app_assoc. exact HR. }
+    replace (N.of_nat (length core + (length bl + 1))) with (N.of_nat (length (core ++ c :: bl)))
+      by (rewrite app_length; cbn [length]; lia).
+    rewrite (get_char_R_mid b (core ++ c :: bl) x [] HR'), Hx.
+    replace (u32 (N.of_nat (length (core ++ c :: bl)) + 4294967295)) with (N.of_nat (length core + length bl)).
+    2:{ unfold u32. rewrite app_length. cbn [length].
+        replace (N.of_nat (length core + S (length bl)) + 4294967295)%N
+          with (N.of_nat (length core + length bl) + 1 * 4294967296)%N by lia.
+        rewrite N.mod_add by lia. rewrite N.mod_small; lia. }
+    (* the buffer itself is unchanged: the remaining blanks are bl, followed by x *)
+    clear IH. revert HR. generalize (@eq_refl _ (core ++ c :: bl ++ [x])). intros _ HR.
+    (* restate as a scan over bl with a tail *)
+    assert (Hgen : forall bl' tail core' k, R b (core' ++ c :: bl' ++ tail) -> forallb is_cspace bl' = true ->
+              length bl' < k -> (N.of_nat (length core' + length bl') < 4294967296)%N ->
+              strip_trail k b (N.of_nat (length core' + length bl')) = Some (N.of_nat (length core'))).
+    { induction bl' as [|y bl' IHb] using rev_ind; intros tail core' k HRk Hbk Hk H32k;
+        (destruct k as [|k]; [cbn in Hk; lia|]); cbn [strip_trail].
+      - cbn [length app] in *. rewrite Nat.add_0_r. rewrite (get_char_R_mid b core' c tail HRk). now rewrite Hc.
+      - rewrite forallb_app in Hbk. apply andb_true_iff in Hbk. destruct Hbk as (Hbk & Hy). cbn in Hy.
+        rewrite andb_true_r in Hy. rewrite app_length in *. cbn [length] in *.
+        assert (HRk' : R b ((core' ++ c :: bl') ++ y :: tail)).
+        { rewrite <- app_assoc. cbn [app]. rewrite <- app_assoc in HRk. exact HRk. }
+        replace (N.of_nat (length core' + (length bl' + 1))) with (N.of_nat (length (core' ++ c :: bl')))
+          by (rewrite app_length; cbn [length]; lia).
+        rewrite (get_char_R_mid b (core' ++ c :: bl') y tail HRk'), Hy.
+        replace (u32 (N.of_nat (length (core' ++ c :: bl')) + 4294967295)) with (N.of_nat (length core' + length bl')).
+        2:{ unfold u32. rewrite app_length. cbn [length].
+            replace (N.of_nat (length core' + S (length bl')) + 4294967295)%N
+              with (N.of_nat (length core' + length bl') + 1 * 4294967296)%N by lia.
+            rewrite N.mod_add by lia. rewrite N.mod_small; lia. }
+        apply (IHb (y :: tail)); [| exact Hbk | lia | lia].
+        rewrite <- app_assoc in HRk. exact HRk. }
+    apply (Hgen bl [x]); [exact HR | exact Hb | lia | lia].
+Qed.
+
+Lemma last_nonblank l : existsb (fun c => negb (is_cspace c)) l = true ->
+  exists core c blanks, l = core ++ c :: blanks /\ is_cspace c = false /\ forallb is_cspace blanks = true.
+Proof.
+  induction l as [|x l IH] using rev_ind; intros H; [discriminate|].
+  destruct (is_cspace x) eqn:E.
+  - rewrite existsb_app in H. cbn in H. rewrite E in H. cbn in H. rewrite orb_false_r in H.
+    destruct (IH H) as (core & c & bl & -> & Hc & Hb). exists core, c, (bl ++ [x]).
+    split; [now rewrite <- app_assoc|]. split; [exact Hc|]. rewrite forallb_app, Hb. cbn. now rewrite E.
+  - exists l, x, []. auto.
+Qed.
+
+Lemma drop_blanks_app bl c r : forallb is_cspace bl = true -> is_cspace c = false ->
+  drop_blanks (bl ++ c :: r) = c :: r.
+Proof.
+  induction bl as [|x bl IH]; intros Hb Hc; cbn; [now rewrite Hc|].
+  cbn in Hb. apply andb_true_iff in Hb. destruct Hb as (Hx & Hb). rewrite Hx. now apply IH.
+Qed.
+
+Lemma forallb_rev {A} (p : A -> bool) l : forallb p (rev l) = forallb p l.
+Proof. induction l as [|x l IH]; cbn; [reflexivity|]. rewrite forallb_app, IH. cbn. rewrite andb_true_r. apply andb_comm. Qed.
+
+Lemma strip_R b s : R b s -> (N.of_nat (length s) + 1 < 4294967296)%N ->
+  exists b', strip_blanks b = (b', Some true) /\ R b' (trim_spec s).
+Proof.
+  intros HR H32. destruct (R_contents _ _ HR) as (_ & Hst & Hl). unfold strip_blanks. rewrite Hst.
+  assert (HR0 : R b ([] ++ take_blanks s ++ drop_blanks s)) by (cbn [app]; now rewrite <- take_drop).
+  pose proof (strip_lead_ok (take_blanks s) [] b (S (blen b)) (drop_blanks s) HR0 (take_blanks_all s) (drop_blanks_head s)) as Hlead.
+  assert (Hls : length s = length (take_blanks s) + length (drop_blanks s)).
+  { rewrite (take_drop s) at 1. apply app_length. }
+  cbn [length] in Hlead. change (N.of_nat 0) with 0%N in Hlead. rewrite Hlead by lia. clear Hlead. cbn [Nat.add].
+  assert (Hb1 : exists b1, (if (0 <? N.of_nat (length (take_blanks s)))%N
+                            then fst (delete b 0%N (N.of_nat (length (take_blanks s)))) else b) = b1 /\
+                R b1 (drop_blanks s)).
+  { destruct (take_blanks s) as [|t0 tb] eqn:Etb.
+    - cbn. exists b. split; [reflexivity|]. exact HR0.
+    - rewrite <- Etb in *. replace (0 <? _)%N with true by (symmetry; apply N.ltb_lt; rewrite Etb; cbn; lia).
+      destruct (delete_R_mid b [] (take_blanks s) (drop_blanks s) HR0) as (b1 & Hd & HR1); [rewrite Etb; discriminate|].
+      cbn [length] in Hd. change (N.of_nat 0) with 0%N in Hd. exists b1. now rewrite Hd. }
+  destruct Hb1 as (b1 & -> & HR1). destruct (R_contents _ _ HR1) as (_ & _ & Hl1). rewrite Hl1.
+  unfold trim_spec. pose proof (drop_blanks_head s) as Hh.
+  destruct (drop_blanks s) as [|h t] eqn:Es'.
+  { cbn. exists b1. auto. }
+  rewrite <- Es' in *.
+  destruct (last_nonblank (drop_blanks s)) as (core & c & bl & Hdec & Hc & Hb).
+  { rewrite Es'. cbn. now rewrite Hh. }
+  replace (0 <? N.of_nat (length (drop_blanks s)))%N with true by (symmetry; apply N.ltb_lt; rewrite Es'; cbn; lia).
+  rewrite Hdec in *. clear Hh.
+  assert (Hlen : length (core ++ c :: bl) = length core + S (length bl)) by (rewrite app_length; reflexivity).
+  replace (N.of_nat (length (core ++ c :: bl)) - 1)%N with (N.of_nat (length core + length bl)) by lia.
+  rewrite (strip_trail_ok bl core c b1 _ HR1 Hc Hb) by lia.
+  replace (u32 (N.of_nat (length core) + 1)) with (N.of_nat (length (core ++ [c])))
+    by (unfold u32; rewrite app_length; cbn [length]; rewrite N.mod_small; lia).
+  replace (u32 (N.of_nat (length core + length bl) + 4294967296 - N.of_nat (length core))) with (N.of_nat (length bl)).
+  2:{ unfold u32. replace (N.of_nat (length core + length bl) + 4294967296 - N.of_nat (length core))%N
+        with (N.of_nat (length bl) + 1 * 4294967296)%N by lia.
+      rewrite N.mod_add by lia. rewrite N.mod_small; lia. }
+  assert (Hspec : rev (drop_blanks (rev (core ++ c :: bl))) = core ++ [c]).
+  { rewrite rev_app_distr. cbn [rev]. rewrite <- app_assoc. cbn [app].
+    rewrite drop_blanks_app; [| now rewrite forallb_rev | exact Hc].
+    cbn [rev]. now rewrite rev_involutive. }
+  rewrite Hspec.
+  assert (HR1' : R b1 ((core ++ [c]) ++ bl ++ [])) by (now rewrite app_nil_r, <- app_assoc).
+  destruct bl as [|x bl'] eqn:Ebl.
+  - exists b1. split; [|now rewrite app_nil_r in HR1'].
+    unfold delete. destruct (R_contents _ _ HR1) as (_ & Hst1 & _). rewrite Hst1. cbn [length].
+    change (N.of_nat 0 =? 0)%N with true. now rewrite orb_true_r.
+  - rewrite <- Ebl in *.
+    destruct (delete_R_mid b1 (core ++ [c]) bl [] HR1') as (b2 & Hd & HR2); [rewrite Ebl; discriminate|].
+    exists b2. rewrite Hd. split; [reflexivity|]. now rewrite app_nil_r in HR2.
+Qed.
